@@ -67,6 +67,22 @@ class RegisterAllocatableOperation(Operation, abc.ABC):
         }
 
     @staticmethod
+    def all_preallocated_registers(region: Region) -> AbstractSet[RegisterType]:
+        """
+        All allocated registers carried by values within a region: operands, results and
+        block arguments of every operation, whether or not it declares register effects.
+        """
+        values = [arg for block in region.blocks for arg in block.args]
+        for op in region.walk():
+            values.extend((*op.operands, *op.results))
+            values.extend(a for r in op.regions for b in r.blocks for a in b.args)
+        return {
+            v.type
+            for v in values
+            if isinstance(v.type, RegisterType) and v.type.is_allocated
+        }
+
+    @staticmethod
     def all_excluded_registers(
         region: Region,
     ) -> AbstractSet[RegisterType]:
